@@ -26,7 +26,7 @@ use std::io::{BufRead, Cursor, Write};
 use std::panic::{AssertUnwindSafe, catch_unwind};
 use verif_harness::eval::{classify, show_number, show_value};
 
-const INF_TICKS: u64 = 400_000;
+const INF_TICKS: u64 = 100_000;
 
 // ------------------------------------------------------------------ s-expressions
 
